@@ -26,18 +26,22 @@ import (
 const (
 	c12Quick    = 600   // 300 schedule configs + 60 each: ctx give-up, MaxElapsedTime give-up, concurrent, elapsed-inside-wait, ctx with zero waits
 	c12Thorough = 60000 // the same mix, x100
-	c12Stride   = 10    // idx%10: 0..4 schedule, 5 ctx, 6 elapsed, 7 concurrent, 8 elapsed inside a wait, 9 ctx with zero waits
-	c12BigMR    = 2000  // MaxRetries of the MaxElapsedTime class
-	retryFrame  = "Retry.Middleware"
-	hour        = time.Hour
+	// appended after the cases above (idx >= c12Quick / c12Thorough), (idx-base)%3: 0 long-lived, 1 redeliver, 2 nested
+	c12QuickExtra    = 120
+	c12ThoroughExtra = 1500
+	c12ExtraStride   = 3
+	c12Stride        = 10   // idx%10: 0..4 schedule, 5 ctx, 6 elapsed, 7 concurrent, 8 elapsed inside a wait, 9 ctx with zero waits
+	c12BigMR         = 2000 // MaxRetries of the MaxElapsedTime class
+	retryFrame       = "Retry.Middleware"
+	hour             = time.Hour
 )
 
 func init() {
 	vlib.Register(&vlib.Prop{
 		ID:    "C12",
 		Level: "exploration",
-		Cases: func(tier string) int { return vlib.TierN(tier, c12Quick, c12Thorough) },
-		Rule: "case idx%10 in 0..4 = class schedule: one random Retry config (MaxRetries 1..8, InitialInterval 0 / ns / us / up to 3 ms, Multiplier in {1,1.5,2,3,random 1..3}, " +
+		Cases: func(tier string) int { return vlib.TierN(tier, c12Quick+c12QuickExtra, c12Thorough+c12ThoroughExtra) },
+		Rule: "The first 600 (quick) / 60000 (thorough) cases: case idx%10 in 0..4 = class schedule: one random Retry config (MaxRetries 1..8, InitialInterval 0 / ns / us / up to 3 ms, Multiplier in {1,1.5,2,3,random 1..3}, " +
 			"MaxInterval = Initial .. Initial+6 ms, RandomizationFactor in {0,0.5,1,random}, MaxElapsedTime 0 or 1 h, Logger nil or Nop) wrapped ONCE and invoked with 3-4 handler scripts " +
 			"(fail forever; fail^MaxRetries then succeed; fail^i then succeed for a random i < MaxRetries; sometimes i=0), every attempt returning its own output slice and its own error value. " +
 			"idx%10==5 = class ctx/*: the message context ends (handler cancels it in attempt k=1 with 1 h intervals; in attempt k=2,3 with a tiny InitialInterval and a huge Multiplier so that only the wait after attempt k is >= 40 s; " +
@@ -45,7 +49,18 @@ func init() {
 			"idx%10==7 = class concurrent: ONE wrapped handler retries a permanently failing message (MaxRetries 3..4, Initial 8..12 ms, Multiplier 2, RF 0) while another goroutine keeps passing fresh, immediately succeeding messages through the same wrapped handler every few ms: the failing message's hook delays and back-off gaps must still follow its own progression. " +
 			"idx%10==8 = class elapsed-inside-wait: Initial 40..80 ms, Multiplier 6, RF 0, MaxElapsedTime = 1.5 x Initial, so the budget ends inside the second wait with a margin of 5.5 x Initial (>= 220 ms): a third attempt must not happen (reported only if it happens in 4 of 4 consecutive runs, so that a stalled process cannot fake it). " +
 			"idx%10==9 = class ctx-zero-wait: InitialInterval 0 (every wait is zero), MaxRetries 8, the handler cancels the message context in its first attempt; 40 such messages per case: with a zero wait both select branches may be ready, so single outcomes are not judged, but a Retry that honours the context gives up in most of them - reported when >= 30 of 40 messages used all 9 calls. " +
-			"Non-trivial: schedule = at least one retry was made and at least one hook delay and one back-off gap were judged; ctx/elapsed = Retry gave up with fewer than MaxRetries+1 calls. " +
+			"The last 120 (quick) / 1500 (thorough) cases, j = idx-600 / idx-60000: " +
+			"j%3==0 = class long-lived/*: MaxElapsedTime E = 120..250 ms, MaxRetries 2..4, Initial 2..6 ms, Multiplier 1/1.5/2, MaxInterval 3 x Initial, RF 0 or <= 0.3 (all waits of one message sum to <= 70 ms, far below E), OnRetryHook set in half of the cases; " +
+			"the result of Retry.Middleware(h) is built ONCE and used for messages that arrive later than E after it was built: variant reused (one failing message at once, an idle pause of E + 10..60 ms, then 2-3 more messages with failing scripts), " +
+			"idle-first (the pause comes before the first message), same-message (as reused, but the very same *message.Message is presented every time), slow-first (no pause; the first attempt of the message itself takes E + 5..25 ms before it fails). " +
+			"Every message has its own budget: attempt counts, hook delays and back-off gaps are judged exactly as in class schedule as long as the harness's own measurement shows that the message's budget was not used up " +
+			"(start of the retry - end of attempt 1 <= E for delays/gaps, return - end of attempt 1 < E for a lower call count); beyond that the observation is tolerated and counted (own_budget_used_up). " +
+			"j%3==1 = class redeliver: a schedule-class config with MaxElapsedTime 0 / 1 h / 5..30 s; ONE *message.Message (context.Background or a cancelable context that the harness never cancels) is presented 4-6 times in a row to wrapped Retry handlers " +
+			"(two instances of the config, one with and one without MaxElapsedTime, picked at random per delivery) with the schedule-class scripts: every delivery must get its full number of attempts (unless the harness's own measurement cannot exclude that a seconds-range MaxElapsedTime was used up), and the message context must not have ended when Retry returns. " +
+			"j%3==2 = class nested: outer Retry (MaxRetries 1..4) wrapped around inner Retry (MaxRetries 1..4) wrapped around the scripted handler (fail forever / succeed at global attempt g), MaxElapsedTime 0 or 1 h on each level, intervals 0 / 0.1..2 ms: " +
+			"each level is judged like a schedule-class invocation (the inner chain is the outer level's handler), i.e. the handler runs min(g, (MRo+1)(MRi+1)) times, the outer hook is numbered 1.. once per failed outer retry, each inner run has its own hook numbering and back-off progression. " +
+			"In the classes schedule, redeliver, nested and long-lived the harness never ends the message context, so it must not be ended when Retry returns (clause ctx-ended-by-retry; a replaced but live context is only counted: msg_context_replaced). " +
+			"Non-trivial: schedule = at least one retry was made and at least one hook delay and one back-off gap were judged; ctx/elapsed = Retry gave up with fewer than MaxRetries+1 calls; long-lived = a message first failed later than E after Middleware() was called and at least one of its back-off gaps was judged inside its own budget; redeliver = a delivery after an earlier failing delivery of the same object made a retry; nested = the outer level retried after the inner level had retried. " +
 			"Distinct = distinct (class, config, scripts, observed call counts).",
 		Assumptions: []string{
 			"MaxInterval >= InitialInterval (a cap below the initial interval is a mis-configuration which the vendored back-off does not honour on the first wait; excluded)",
@@ -56,6 +71,9 @@ func init() {
 			"'Retry keeps waiting after the context ended' is decided by the quiescence detector (Retry's own 1 h / >=40 s timer is not counted as a wake-up source once the harness knows the context has ended), not by a time-out",
 			"class elapsed judges only: fewer than MaxRetries+1 calls, non-nil last error, hook numbering, gap >= reported delay; a delay of -1 (backoff.Stop) is tolerated there; inconclusive when the harness's own control timer of MaxElapsedTime fired > 50 ms late",
 			"a returned error is accepted when it is the last attempt's error value or wraps it (errors.Is)",
+			"'MaxElapsedTime passes' is per message: the budget of a message starts no earlier than the end of its first (failed) attempt, whatever the age of the middleware instance; the harness measures from the end of attempt 1 (taken inside the handler, so not later than Retry's own start) to the start of the retry / to the return (taken outside, so not earlier than Retry's own reading): 'budget not used up' by this measurement implies the same for Retry's own clock, the converse is tolerated",
+			"'the message context ends' refers to the context the caller put on the message: a Retry that ends the message's context itself (observed as msg.Context().Err() != nil after the call while the harness's context is alive) makes its own give-up condition true for every later Retry that sees the message and is reported (ctx-ended-by-retry); the consequences (a later delivery / an outer Retry giving up with no reason) are judged by the ordinary calls clause",
+			"class nested: a failed inner chain counts as one failed attempt of the outer level; the product rule for the number of handler runs follows from judging both levels",
 		},
 		Run: run,
 	})
@@ -144,6 +162,8 @@ type invocation struct {
 	work     time.Duration
 	outs     [][]*message.Message // pre-generated outputs of attempts 1..len(outs)
 	onAttemt func(n int)          // called inside attempt n (before it returns)
+	// delegate != nil: attempt n is not scripted, it is the result of delegate (class nested: the inner Retry chain)
+	delegate func(n int, msg *message.Message) ([]*message.Message, error)
 
 	mu       sync.Mutex
 	attempts []attempt
@@ -154,6 +174,23 @@ type invocation struct {
 	retErr   error
 	panicked string
 	returned bool
+	retAt    time.Time // taken after Retry returned
+
+	ctxBefore, ctxAfter context.Context // msg.Context() right before / right after the call
+	ctxErrAfter         error
+}
+
+// call runs h(msg) on the calling goroutine and records the result and the message context around the call.
+func (iv *invocation) call(h message.HandlerFunc, msg *message.Message) ([]*message.Message, error) {
+	before := msg.Context()
+	out, err := h(msg)
+	at := time.Now()
+	after := msg.Context()
+	iv.mu.Lock()
+	iv.retOut, iv.retErr, iv.returned, iv.retAt = out, err, true, at
+	iv.ctxBefore, iv.ctxAfter, iv.ctxErrAfter = before, after, after.Err()
+	iv.mu.Unlock()
+	return out, err
 }
 
 func (iv *invocation) handler(msg *message.Message) ([]*message.Message, error) {
@@ -170,12 +207,16 @@ func (iv *invocation) handler(msg *message.Message) ([]*message.Message, error) 
 		iv.onAttemt(n)
 	}
 	var out []*message.Message
-	if n <= len(iv.outs) {
-		out = iv.outs[n-1]
-	}
 	var err error
-	if iv.forever || n <= iv.failN {
-		err = &attemptErr{run: iv.name, n: n}
+	if iv.delegate != nil {
+		out, err = iv.delegate(n, msg)
+	} else {
+		if n <= len(iv.outs) {
+			out = iv.outs[n-1]
+		}
+		if iv.forever || n <= iv.failN {
+			err = &attemptErr{run: iv.name, n: n}
+		}
 	}
 
 	iv.mu.Lock()
@@ -218,10 +259,7 @@ func (iv *invocation) exec(h message.HandlerFunc, msg *message.Message, armed fu
 				iv.mu.Unlock()
 			}
 		}()
-		out, err := h(msg)
-		iv.mu.Lock()
-		iv.retOut, iv.retErr, iv.returned = out, err, true
-		iv.mu.Unlock()
+		iv.call(h, msg)
 	}()
 	// The Retry closure may be inlined into the caller ("c12.runSchedule.Retry.Middleware.func4"), in which
 	// case vlib's default timer frame "middleware.Retry.Middleware" does not match: name it here.
@@ -247,6 +285,11 @@ type expect struct {
 	allowStop  bool // a delay of -1 (backoff.Stop) is tolerated
 	ctxClause  bool // a wrong call count is reported as ctx-giveup
 	noHook     bool // Retry was configured without OnRetryHook: skip the hook clauses, judge gaps against the arithmetic minimum
+	// ownBudget > 0: MaxElapsedTime of the message is small enough to be used up by a stalled process. Fewer calls than
+	// expected / a Stop delay / a short gap are tolerated when the harness's own measurement (from the end of attempt 1)
+	// does not prove that the budget was still open.
+	ownBudget time.Duration
+	ctxIntact bool // the harness never ends the message context: it must not have ended when Retry returns
 }
 
 type trace struct {
@@ -353,7 +396,13 @@ func judge(res *vlib.Result, c cfg, iv *invocation, ex expect) int {
 		fail("calls", "the handler was never invoked")
 		return events
 	}
-	if ex.calls >= 0 && n != ex.calls {
+	budgetUsedUp := false
+	if ex.calls >= 0 && n < ex.calls && n >= 1 && ex.ownBudget > 0 && !iv.retAt.IsZero() && iv.retAt.Sub(iv.attempts[0].end) >= ex.ownBudget {
+		// Retry returned not earlier than MaxElapsedTime after the first attempt had ended: a legitimate give-up cannot be excluded
+		budgetUsedUp = true
+		res.Count("own_budget_used_up", 1)
+	}
+	if ex.calls >= 0 && n != ex.calls && !budgetUsedUp {
 		if ex.ctxClause {
 			fail("ctx-giveup", "the message context ended in/after attempt %d: expected Retry to return after exactly %d handler calls, observed %d", ex.calls, ex.calls, n)
 		} else {
@@ -413,6 +462,11 @@ func judge(res *vlib.Result, c cfg, iv *invocation, ex expect) int {
 		if !ex.checkDelay {
 			continue
 		}
+		if ex.ownBudget > 0 && h.N >= 1 && h.N < n && iv.attempts[h.N].start.Sub(iv.attempts[0].end) > ex.ownBudget {
+			// the delay was computed at some moment before retry h.N started; that moment may lie beyond the message's own budget (Stop)
+			res.Count("own_budget_used_up", 1)
+			continue
+		}
 		lo, hi := c.bounds(h.N)
 		res.Count("hook_delays_judged", 1)
 		if d := float64(h.Delay); d < lo || d > hi {
@@ -430,6 +484,10 @@ func judge(res *vlib.Result, c cfg, iv *invocation, ex expect) int {
 			lo, _ := c.bounds(k)
 			want = time.Duration(lo)
 		}
+		if ex.ownBudget > 0 && iv.attempts[k].start.Sub(iv.attempts[0].end) > ex.ownBudget {
+			res.Count("own_budget_used_up", 1)
+			continue
+		}
 		if want > 0 {
 			res.Count("gaps_judged_positive", 1)
 		}
@@ -437,9 +495,29 @@ func judge(res *vlib.Result, c cfg, iv *invocation, ex expect) int {
 			fail("backoff-gap", "retry %d started %v (%d ns) after the end of attempt %d, less than the %s %v (%d ns)", k, gap, int64(gap), k, src, want, int64(want))
 		}
 	}
+	// --- the message context is the caller's: Retry must not end it
+	if ex.ctxIntact && iv.returned {
+		events++
+		res.Count("msg_context_checked", 1)
+		if iv.ctxErrAfter != nil {
+			fail("ctx-ended-by-retry", "nobody but Retry touched the message context, yet msg.Context().Err() = %q when Retry returned after %d handler calls (context before the call: %T, after: %T): any later Retry that sees this message gives up at once", iv.ctxErrAfter.Error(), n, iv.ctxBefore, iv.ctxAfter)
+		} else if !sameCtx(iv.ctxAfter, iv.ctxBefore) {
+			res.Count("msg_context_replaced", 1)
+		}
+	}
 	res.Count("handler_calls", n)
 	res.Count("hook_calls", len(iv.hooks))
 	return events
+}
+
+// sameCtx compares two contexts by identity (a context of an uncomparable dynamic type counts as different).
+func sameCtx(a, b context.Context) (same bool) {
+	defer func() {
+		if recover() != nil {
+			same = false
+		}
+	}()
+	return a == b
 }
 
 func hookNums(h []hookCall) []int {
@@ -539,6 +617,16 @@ func genCfg(r *vlib.Rand) cfg {
 // case runner
 
 func run(e *vlib.Env) vlib.Result {
+	if base := vlib.TierN(e.Tier, c12Quick, c12Thorough); e.Idx >= base {
+		j := e.Idx - base
+		switch j % c12ExtraStride {
+		case 0:
+			return runLongLived(e, j/c12ExtraStride)
+		case 1:
+			return runRedeliver(e)
+		}
+		return runNested(e)
+	}
 	switch e.Idx % c12Stride {
 	case 5:
 		return runCtx(e)
@@ -607,7 +695,7 @@ func runSchedule(e *vlib.Env) vlib.Result {
 		if !finish(&res, oc, dump, iv, iv.script()) {
 			break
 		}
-		res.Events += judge(&res, c, iv, expect{class: "schedule", calls: want, checkDelay: true})
+		res.Events += judge(&res, c, iv, expect{class: "schedule", calls: want, checkDelay: true, ctxIntact: true})
 		sigParts = append(sigParts, iv.script(), iv.calls())
 		retries += iv.calls() - 1
 		if res.Failed() {
@@ -911,4 +999,348 @@ func runCtxZeroWait(e *vlib.Env) vlib.Result {
 	}
 	res.NonTrivial = true
 	return res
+}
+
+// ---------------------------------------------------------------------------------------------
+// classes added for long-lived middleware instances, re-presented messages and nested Retry
+
+type script struct {
+	failN   int
+	forever bool
+}
+
+func (s script) want(maxRetries int) int {
+	if !s.forever && s.failN+1 < maxRetries+1 {
+		return s.failN + 1
+	}
+	return maxRetries + 1
+}
+
+// current is the "invocation under observation" of a wrapped handler that is built once and used for many invocations.
+type current struct {
+	mu sync.Mutex
+	iv *invocation
+}
+
+func (c *current) get() *invocation { c.mu.Lock(); defer c.mu.Unlock(); return c.iv }
+func (c *current) set(iv *invocation) {
+	c.mu.Lock()
+	c.iv = iv
+	c.mu.Unlock()
+}
+func (c *current) handler(m *message.Message) ([]*message.Message, error) { return c.get().handler(m) }
+func (c *current) hook(n int, d time.Duration)                            { c.get().hook(n, d) }
+
+// runLongLived: one Retry.Middleware(h) result serves messages that arrive later than MaxElapsedTime after it was built.
+func runLongLived(e *vlib.Env, vi int) vlib.Result {
+	variants := []string{"reused", "idle-first", "same-message", "slow-first"}
+	v := variants[vi%len(variants)]
+	res := vlib.Result{Class: "long-lived/" + v}
+	ini := time.Duration(e.R.Range(2000, 6000)) * time.Microsecond
+	c := cfg{MaxRetries: e.R.Range(2, 4), Initial: ini, Max: 3 * ini, Mult: []float64{1, 1.5, 2}[e.R.Intn(3)],
+		MaxElapsed: time.Duration(e.R.Range(120, 250)) * time.Millisecond, Logger: e.R.Bool()}
+	if e.R.Bool() {
+		c.RF = 0.3 * e.R.Float()
+	}
+	withHook := e.R.Bool()
+	pause := c.MaxElapsed + time.Duration(e.R.Range(10, 60))*time.Millisecond
+
+	var cur current
+	var hook func(int, time.Duration)
+	if withHook {
+		hook = cur.hook
+	}
+	built := time.Now() // not later than the moment Middleware() runs
+	h := c.retry(hook).Middleware(cur.handler)
+
+	scripts := []script{{forever: true}, {failN: e.R.Range(1, c.MaxRetries)}}
+	if e.R.Bool() {
+		scripts = append(scripts, script{failN: c.MaxRetries})
+	}
+	order := e.R.Perm(len(scripts))
+	type step struct {
+		s         script
+		pauseFrom bool // the idle pause comes before this message
+		slow      bool
+	}
+	var steps []step
+	switch v {
+	case "reused", "same-message":
+		steps = append(steps, step{s: script{forever: e.R.Bool(), failN: e.R.Range(0, c.MaxRetries)}})
+		for i, si := range order {
+			steps = append(steps, step{s: scripts[si], pauseFrom: i == 0})
+		}
+	case "idle-first":
+		for i, si := range order {
+			steps = append(steps, step{s: scripts[si], pauseFrom: i == 0})
+		}
+	case "slow-first":
+		for _, si := range order[:2] {
+			steps = append(steps, step{s: scripts[si], slow: true})
+		}
+	}
+	var shared *message.Message
+	if v == "same-message" {
+		shared = message.NewMessage(e.ID()+"-shared", e.R.Payload(8))
+		if e.R.Bool() {
+			ctx, cancel := context.WithCancel(context.Background())
+			defer cancel()
+			shared.SetContext(ctx)
+		}
+	}
+	var traces []trace
+	var sigParts []any
+	aged, agedJudged := 0, 0
+	for ri, st := range steps {
+		if st.pauseFrom {
+			vlib.TimerWait(pause)
+		}
+		iv := &invocation{name: fmt.Sprintf("%s-l%d", e.ID(), ri), failN: st.s.failN, forever: st.s.forever}
+		iv.outs = genOuts(e.R, iv.name, c.MaxRetries+2)
+		if st.slow {
+			d := c.MaxElapsed + time.Duration(e.R.Range(5, 25))*time.Millisecond
+			iv.onAttemt = func(n int) {
+				if n == 1 {
+					vlib.TimerWait(d)
+				}
+			}
+		}
+		cur.set(iv)
+		msg := shared
+		if msg == nil {
+			msg = message.NewMessage(iv.name, e.R.Payload(8))
+		}
+		before := res.Counters["gaps_judged_positive"]
+		oc, dump := iv.exec(h, msg, nil)
+		traces = append(traces, iv.trace())
+		if !finish(&res, oc, dump, iv, v+"/"+iv.script()) {
+			break
+		}
+		res.Events += judge(&res, c, iv, expect{class: "long-lived/" + v, calls: st.s.want(c.MaxRetries), checkDelay: true, noHook: !withHook, ownBudget: c.MaxElapsed, ctxIntact: true})
+		sigParts = append(sigParts, iv.script(), iv.calls())
+		if res.Failed() {
+			res.Witness = map[string]any{"trace": iv.trace(), "middleware_age_at_first_failure_ns": int64(iv.firstEnd().Sub(built)), "max_elapsed_ns": int64(c.MaxElapsed)}
+			break
+		}
+		if iv.calls() >= 2 && iv.firstEnd().Sub(built) > c.MaxElapsed {
+			aged++
+			if res.Counters["gaps_judged_positive"] > before {
+				agedJudged++
+			}
+		}
+	}
+	res.Count("invocations", len(traces))
+	res.Count("long_lived_messages_after_max_elapsed", aged)
+	res.NonTrivial = agedJudged > 0
+	res.Sig = vlib.Sig("long-lived", v, c.MaxRetries, c.Initial, c.Mult, c.RF, c.MaxElapsed, withHook, sigParts)
+	res.Sample = map[string]any{"cfg": c, "variant": v, "hook": withHook, "idle_pause_ns": int64(pause), "invocations": traces}
+	return res
+}
+
+func (iv *invocation) firstEnd() time.Time {
+	iv.mu.Lock()
+	defer iv.mu.Unlock()
+	if len(iv.attempts) == 0 {
+		return time.Time{}
+	}
+	return iv.attempts[0].end
+}
+
+// runRedeliver: the same *message.Message is presented again and again to wrapped Retry handlers.
+func runRedeliver(e *vlib.Env) vlib.Result {
+	res := vlib.Result{Class: "redeliver"}
+	c := genCfg(e.R)
+	switch e.R.Intn(3) {
+	case 0:
+		c.MaxElapsed = hour
+	case 1:
+		c.MaxElapsed = time.Duration(e.R.Range(5, 30)) * time.Second
+	}
+	cB := c
+	if c.MaxElapsed > 0 {
+		cB.MaxElapsed = 0
+	} else {
+		cB.MaxElapsed = hour
+	}
+	var cur current
+	hs := []message.HandlerFunc{c.retry(cur.hook).Middleware(cur.handler), cB.retry(cur.hook).Middleware(cur.handler)}
+	cfgs := []cfg{c, cB}
+
+	scripts := []script{{forever: true}, {failN: c.MaxRetries}, {failN: e.R.Range(1, c.MaxRetries)}, {failN: e.R.Range(1, c.MaxRetries)}}
+	if e.R.Intn(3) == 0 {
+		scripts = append(scripts, script{failN: 0})
+	}
+	if e.R.Bool() {
+		scripts = append(scripts, script{forever: true})
+	}
+	order := e.R.Perm(len(scripts))
+
+	msg := message.NewMessage(e.ID()+"-m", e.R.Payload(8))
+	ctxKind := "background"
+	if e.R.Bool() {
+		ctxKind = "cancelable"
+		ctx, cancel := context.WithCancel(context.Background())
+		defer cancel() // after the last judgement
+		msg.SetContext(ctx)
+	}
+	var traces []trace
+	var sigParts []any
+	failedBefore, retriedAfterFailure := false, 0
+	for ri, si := range order {
+		s := scripts[si]
+		iv := &invocation{name: fmt.Sprintf("%s-d%d", e.ID(), ri), failN: s.failN, forever: s.forever}
+		iv.outs = genOuts(e.R, iv.name, c.MaxRetries+2)
+		cur.set(iv)
+		which := 0
+		if e.R.Intn(10) < 3 {
+			which = 1
+		}
+		oc, dump := iv.exec(hs[which], msg, nil)
+		traces = append(traces, iv.trace())
+		if !finish(&res, oc, dump, iv, iv.script()) {
+			break
+		}
+		res.Events += judge(&res, cfgs[which], iv, expect{class: fmt.Sprintf("redeliver delivery=%d", ri+1), calls: s.want(c.MaxRetries), checkDelay: true, ctxIntact: true, ownBudget: cfgs[which].MaxElapsed})
+		sigParts = append(sigParts, iv.script(), which, iv.calls())
+		if res.Failed() {
+			res.Witness = map[string]any{"trace": iv.trace(), "earlier_deliveries_of_the_same_message": traces[:len(traces)-1]}
+			break
+		}
+		if failedBefore && iv.calls() >= 2 {
+			retriedAfterFailure++
+		}
+		if s.forever || s.failN > 0 {
+			failedBefore = true
+		}
+	}
+	res.Count("invocations", len(traces))
+	res.Count("redeliveries_retried_after_failed_delivery", retriedAfterFailure)
+	res.NonTrivial = retriedAfterFailure > 0
+	res.Sig = vlib.Sig("redeliver", c.MaxRetries, c.Initial, c.Max, c.Mult, c.RF, c.MaxElapsed, ctxKind, sigParts)
+	res.Sample = map[string]any{"cfg": c, "message_context": ctxKind, "deliveries": traces}
+	return res
+}
+
+func genNestedCfg(r *vlib.Rand) cfg {
+	c := cfg{MaxRetries: r.Range(1, 4), Logger: r.Bool()}
+	if r.Intn(6) != 0 {
+		c.Initial = time.Duration(r.Range(100, 2000)) * time.Microsecond
+	}
+	c.Mult = []float64{1, 2, 1 + 2*r.Float()}[r.Intn(3)]
+	c.Max = c.Initial + time.Duration(r.Range(0, 3000000))
+	if r.Bool() {
+		c.RF = 0.5 * r.Float()
+	}
+	return c
+}
+
+// runNested: outer Retry around inner Retry around the scripted handler.
+func runNested(e *vlib.Env) vlib.Result {
+	res := vlib.Result{Class: "nested"}
+	co, ci := genNestedCfg(e.R), genNestedCfg(e.R)
+	if e.R.Intn(3) != 0 {
+		ci.MaxElapsed = hour
+	}
+	if e.R.Intn(3) == 0 {
+		co.MaxElapsed = hour
+	}
+	per := ci.MaxRetries + 1
+	total := per * (co.MaxRetries + 1)
+	// the handler succeeds at global attempt g (g > total: never within this call)
+	g := total + 1
+	switch e.R.Intn(4) {
+	case 0:
+		g = e.R.Range(per+1, total) // some outer retry succeeds
+	case 1:
+		g = e.R.Range(1, total)
+	}
+	name := e.ID() + "-n"
+	outs := genOuts(e.R, name, total)
+
+	var cur current // the inner run under observation
+	var inners []*invocation
+	var innersMu sync.Mutex
+	innerH := ci.retry(cur.hook).Middleware(cur.handler)
+	outer := &invocation{name: name + "-outer"}
+	outer.delegate = func(t int, msg *message.Message) ([]*message.Message, error) {
+		// inner run t covers the global attempts (t-1)*per+1 .. t*per
+		iv := &invocation{name: fmt.Sprintf("%s-inner%d", name, t), forever: true}
+		lo := (t - 1) * per
+		if g > lo && g <= lo+per {
+			iv.forever, iv.failN = false, g-lo-1
+		}
+		if lo < len(outs) {
+			iv.outs = outs[lo:]
+		}
+		innersMu.Lock()
+		inners = append(inners, iv)
+		innersMu.Unlock()
+		cur.set(iv)
+		return iv.call(innerH, msg)
+	}
+	h := co.retry(outer.hook).Middleware(outer.handler)
+	msg := message.NewMessage(name, e.R.Payload(8))
+	ctxKind := "background"
+	if e.R.Bool() {
+		ctxKind = "cancelable"
+		ctx, cancel := context.WithCancel(context.Background())
+		defer cancel()
+		msg.SetContext(ctx)
+	}
+	oc, dump := outer.exec(h, msg, nil)
+	innersMu.Lock()
+	ins := append([]*invocation(nil), inners...)
+	innersMu.Unlock()
+	otr := outer.trace()
+	otr.Script = fmt.Sprintf("inner chain; handler succeeds at global attempt %d of at most %d", g, total)
+	if g > total {
+		otr.Script = fmt.Sprintf("inner chain; handler fails forever (at most %d attempts)", total)
+	}
+	var itr []trace
+	handlerRuns := 0
+	for i, iv := range ins {
+		handlerRuns += iv.calls()
+		if i < 4 {
+			itr = append(itr, iv.trace())
+		}
+	}
+	res.Sample = map[string]any{"outer_cfg": co, "inner_cfg": ci, "message_context": ctxKind, "outer": otr, "inner_runs": itr, "handler_runs": handlerRuns}
+	res.Sig = vlib.Sig("nested", co.MaxRetries, ci.MaxRetries, co.Initial, ci.Initial, co.MaxElapsed, ci.MaxElapsed, g, otr.Calls, handlerRuns)
+	if !finish(&res, oc, dump, outer, "nested") {
+		return res
+	}
+	// inner runs first (they happened first), then the outer level
+	for t, iv := range ins {
+		s := script{forever: iv.forever, failN: iv.failN}
+		res.Events += judge(&res, ci, iv, expect{class: fmt.Sprintf("nested inner-run=%d", t+1), calls: s.want(ci.MaxRetries), checkDelay: true, ctxIntact: true})
+		if res.Failed() {
+			res.Witness = map[string]any{"outer": otr, "inner_run": iv.trace()}
+			return res
+		}
+	}
+	wantOuter := co.MaxRetries + 1
+	if g <= total {
+		wantOuter = (g + per - 1) / per
+	}
+	res.Events += judge(&res, co, outer, expect{class: "nested outer", calls: wantOuter, checkDelay: true, ctxIntact: true})
+	if res.Failed() {
+		res.Witness = map[string]any{"outer": otr, "inner_runs": itr, "handler_runs": handlerRuns, "expected_handler_runs": minInt(g, total)}
+		return res
+	}
+	if want := minInt(g, total); handlerRuns != want {
+		res.Fail("calls", "[nested outer MaxRetries=%d inner MaxRetries=%d, success at global attempt %d] expected %d handler runs, observed %d", co.MaxRetries, ci.MaxRetries, g, want, handlerRuns)
+		res.Witness = map[string]any{"outer": otr, "inner_runs": itr}
+		return res
+	}
+	res.Count("invocations", 1+len(ins))
+	res.Count("nested_handler_runs", handlerRuns)
+	res.NonTrivial = otr.Calls >= 2 && len(ins) >= 2 && ins[0].calls() >= 2
+	return res
+}
+
+func minInt(a, b int) int {
+	if a < b {
+		return a
+	}
+	return b
 }
